@@ -224,6 +224,11 @@ EXPR_FORMS = [
     ("negative", lambda v, w: f"0-{256 ** w - v}" if w < 3 and v > 0 else None),        # explicit suffix only: two's complement truncation
     ("negative-unary", lambda v, w: f"-{256 ** w - v}" if w < 3 and v > 0 else None),
     ("constant", None),
+    # an `=` symbol (defined by the symbol pass): the assembler may refuse to infer a width from it, but if it assembles the
+    # instruction, the width is the natural width of the value
+    ("eq-symbol", "eqsym"),
+    # the same instruction assembled in the bank its operand points to: the encoding does not depend on where the code stands
+    ("origin-in-the-operand's-bank", "origin"),
     # constants spelled like register names are ordinary symbols in operand position
     ("constant-named-a", "name:a"), ("constant-named-A", "name:A"), ("constant-named-x", "name:x"), ("constant-named-y", "name:y"),
     ("constant-named-s", "name:s"),
@@ -282,6 +287,33 @@ def run_expr(mn, tier):
                         outcomes.add("expr-AFTER-PREFIX-WRONG")
                     else:
                         outcomes.add("expr-after-prefix-ok")
+                    continue
+                if form in ("eqsym", "origin"):
+                    if form == "origin" and not (width == 3 and shape[0] in ("", "(", "[")):
+                        continue
+                    from mc.ref import bus as _refbus
+                    for suffix in ("", {1: ".b", 2: ".w", 3: ".l"}[width]):
+                        if form == "eqsym":
+                            src = f"kk = {hexlit(value, False)}\n{mn}{suffix} {isa.render_operand(shape, 'kk')}"
+                            at = 0
+                        else:
+                            org = (value & 0xFF0000) | 0x8000
+                            src = f"*=0x{org:06x}\n{mn}{suffix} {isa.render_operand(shape, hexlit(value, False))}"
+                            at = _refbus.lorom().phys(org)
+                        out = impl.assemble(src, rom="low_rom")
+                        n += 1
+                        nt += 1
+                        exp = isa.encode(isa.lookup(mn, shape, width), value, width)
+                        if out.accepted and out.blocks != [(at, exp)]:
+                            viol.append({"key": f"isa:wrong-bytes:{mn} {sid} w{width} form={fname}",
+                                         "msg": f"`{src.replace(chr(10), ' / ')}` must encode as {exp.hex()} at {at:#x} but gave {out.brief()}"})
+                            outcomes.add("expr-WRONG-BYTES")
+                        elif not out.accepted and (form == "origin" or suffix):
+                            viol.append({"key": f"isa:supported-rejected:{mn} {sid} w{width} form={fname}",
+                                         "msg": f"`{src.replace(chr(10), ' / ')}` must encode as {exp.hex()} but was rejected: {out.brief()}"})
+                            outcomes.add("expr-SUPPORTED-REJECTED")
+                        else:
+                            outcomes.add("expr-" + ("defined-accepted" if out.accepted else "inferred-from-eq-rejected"))
                     continue
                 if form is None or (isinstance(form, str) and form.startswith("name:")):
                     text = "kk" if form is None else form[5:]
